@@ -66,6 +66,8 @@ func lenReplay(path string) {
 				L.NilLists = true
 				defer func() { L.NilLists = false }()
 				lenOne(v, &sum)
+				L.NilLists = false
+				lenSpelled(v, &sum) // and in non-canonical spellings of its names and strings (lenspell.go)
 			}
 		}); p != "" {
 			sum.Mis("len/panic:"+L.MsgKey(&v.Msg), "panic: "+p, smallL(v))
@@ -80,6 +82,8 @@ func lenReplay(path string) {
 	sum.Nontrivial = n // vectors under the exactness clause
 	sum.Note("pack_differs_from_spec_octets_left_to_C01", skipped)
 	sum.Note("vectors_compression_shortened", shorter)
+	sum.Note("respelled_variants", spelledVariants)
+	sum.Note("respelled_variants_refused_by_the_packer", spelledRefused)
 	if len(modelMismatch) > 0 {
 		sum.Note("model_mismatch_vectors", len(modelMismatch))
 		sum.Note("model_mismatch_sample", modelMismatch[0])
@@ -381,17 +385,40 @@ type levent struct {
 	// with Compress: the Pack() above ran right after a FAILED Pack of a message with the same names; a second Pack()
 	// of the same value gave the same octets
 	Stable bool `json:"stable"`
+	// 0: names and strings spelled canonically; 1..3: respelled (lenspell.go) -- the same message, the exactness
+	// clause does not apply
+	Spell int `json:"spell"`
 }
 
-func lenObserve(a *wire.Msg, compress bool, sum *hx.Summary) levent {
+func lenObserve(a *wire.Msg, compress bool, spell int, sum *hx.Summary) levent {
 	e := levent{Key: L.MsgKey(a), Msg: a, Compress: compress, RRLen: [][]int{}, Probes: []probe{}}
 	build := func(c bool) *dns.Msg {
 		m, err := L.BuildMsg(a)
 		if err != nil {
 			hx.Die("message cannot be built: %v", err)
 		}
+		if e.Spell != 0 {
+			respellMsg(m, a, e.Spell)
+		}
 		m.Compress = c
 		return m
+	}
+	if spell != 0 { // respelled only where the packer, given room, makes the canonical spelling's octets of it
+		if p := hx.Catch(func() {
+			if ref, err := build(false).Pack(); err == nil {
+				m, _ := L.BuildMsg(a)
+				if respellMsg(m, a, spell) > 0 && sameMessage(m, ref) {
+					e.Spell = spell
+				}
+			} else {
+				afterFailure()
+			}
+		}); p != "" {
+			e.Spell = 0
+		}
+		if e.Spell != 0 {
+			e.Key += ":respelled"
+		}
 	}
 	p := hx.Catch(func() {
 		e.Ulen = build(false).Len()
@@ -442,7 +469,7 @@ func lenRecord(out string, n int) {
 	w := hx.NewWriter(out)
 	defer w.Close()
 	var sum hx.Summary
-	big, plain := 0, 0
+	big, plain, spelled := 0, 0, 0
 	for i := 0; i < n; i++ {
 		sum.Evaluations++
 		g.plain = i%3 == 0
@@ -452,7 +479,14 @@ func lenRecord(out string, n int) {
 		if i%10 == 4 {
 			a = g.straddle() // names crossing offset 16384
 		}
-		e := lenObserve(a, g.r.Intn(3) != 0, &sum)
+		spell := 0
+		if i%4 == 1 { // a quarter of the messages in a non-canonical spelling
+			spell = 1 + (i/4)%spellStyles
+		}
+		e := lenObserve(a, g.r.Intn(3) != 0, spell, &sum)
+		if e.Spell != 0 {
+			spelled++
+		}
 		if e.Packlen > 16384 {
 			big++
 		}
@@ -467,6 +501,7 @@ func lenRecord(out string, n int) {
 	sum.Nontrivial = plain
 	sum.Note("events", w.N)
 	sum.Note("events_beyond_16384_octets", big)
+	sum.Note("events_respelled", spelled)
 	sum.Print()
 }
 
@@ -476,7 +511,7 @@ func lenReexec(in, out string) {
 	var sum hx.Summary
 	hx.ReadNDJSON(in, func(i int, e *levent) {
 		sum.Evaluations++
-		w.Emit(lenObserve(e.Msg, e.Compress, &sum))
+		w.Emit(lenObserve(e.Msg, e.Compress, e.Spell, &sum))
 	})
 	sum.Print()
 }
